@@ -106,6 +106,9 @@ def check_case(case):
             if not pddl.applicable(dom, world, s, st):
                 raise pddl.Invalid("sequential plan is not valid")
             st = pddl.apply(dom, world, s, st)
+            if any(abs(v) > 10 ** 9 for v in st[1].values()):
+                res.skipped = "magnitude-beyond-float-precision"
+                return res
     except (pddl.Undefined, pddl.Ambiguous, pddl.Conflict):
         raise pddl.Invalid("sequential plan has an undefined step")
     final = st
